@@ -494,12 +494,12 @@ fn programs(ops: &[Op], l: usize) -> Vec<Vec<Op>> {
 }
 
 fn program_len(thorough: bool, in_quick: bool) -> usize {
-    // L per instance: quick L=2 on the quick set and L=1 on the others; thorough L=3 on the quick set, 2 on others
+    // L per instance: quick L=2 on the quick set and L=1 on the others; thorough L=4 on the quick set, 3 on others
     match (thorough, in_quick) {
         (false, true) => 2,
         (false, false) => 1,
-        (true, true) => 3,
-        (true, false) => 2,
+        (true, true) => 4,
+        (true, false) => 3,
     }
 }
 
